@@ -254,6 +254,8 @@ where
     A: Allocator,
 {
     pub fn with_capacity(capacity: usize, allocator: A) -> Result<Self, MapError> {
+        // probing relies on a non-zero power of two capacity, same rule as `adjust_capacity`
+        let capacity = pad_pot(capacity.max(2)).max(4);
         unsafe {
             let (keys, values) = Self::alloc_storage(&allocator, capacity)?;
             let res = Self {
